@@ -503,6 +503,31 @@ impl Universe {
         rng.shuffle(&mut names);
         pkgs.truncate(np);
         names.truncate(nn);
+        if rng.pct(20) {
+            // look-alike keys: differ only by case, or one is a prefix / suffix of the other
+            let base = names[0].clone();
+            let variants = [
+                base.to_uppercase(),
+                base.to_lowercase(),
+                format!("{base}Bar"),
+                format!("My{base}"),
+                format!("{base}_"),
+            ];
+            for _ in 0..rng.range(1, 2) {
+                let v = rng.pick(&variants).clone();
+                if !names.contains(&v) && v != "in" && v != "out" {
+                    names.push(v);
+                }
+            }
+            if rng.pct(50) {
+                let pb = pkgs[0].clone();
+                let pv = [pb.to_uppercase(), format!("{pb}.{pb}"), format!("x.{pb}"), format!("{pb}x")];
+                let v = rng.pick(&pv).clone();
+                if !pkgs.contains(&v) {
+                    pkgs.push(v);
+                }
+            }
+        }
         Universe { pkgs, names }
     }
 
@@ -879,7 +904,12 @@ pub fn gen_doc(
     let mut members = gen_members(rng, u, k, kind, &imports, &fwd);
     if heavy {
         // many hash-ordered warnings plus many pairs of diagnostics with the same start position
-        let ni = rng.range(6, 16);
+        // sizes around the usual thresholds of small-vector / cap / batching code: 16, 32, 64
+        let ni = match rng.below(10) {
+            0..=6 => rng.range(6, 16),
+            7 | 8 => rng.range(30, 40),
+            _ => rng.range(62, 72),
+        };
         for i in 0..ni {
             imports.push(if rng.pct(70) {
                 format!("zz.U{i}")
@@ -887,12 +917,12 @@ pub fn gen_doc(
                 rng.pick(&u.keys()).clone()
             });
         }
-        let nf = rng.range(3, 9);
+        let nf = if rng.pct(85) { rng.range(3, 9) } else { rng.range(30, 40) };
         for i in 0..nf {
             fwd.push(if rng.pct(85) { format!("Fw{i}") } else { format!("Fw{}", rng.below(nf)) });
         }
         if kind == Kind::Interface {
-            let nm = rng.range(3, 8);
+            let nm = if rng.pct(85) { rng.range(3, 8) } else { rng.range(30, 40) };
             for mi in 0..nm {
                 let na = rng.range(1, 3);
                 let mut args = Vec::new();
